@@ -1,10 +1,474 @@
-//! C17 — not built yet.
+//! C17 Notify long-poll never waits for a change that already happened.
+//!
+//! Thread A issues `GET|HEAD /json-delta/notify[?session&serial]` through the real dispatcher and
+//! polls the handler future by hand like an executor would (first poll, afterwards only when the
+//! future's waker was invoked). Thread B performs 1–3 `Server::process_once` calls (changing or
+//! repeating the data set), each of which notifies when the data changed. The schedule decides where
+//! A's steps (version check = `history.read` inside `need_wait`, `notify.after_need_wait` = the point
+//! just before `notify.subscribe()`, the read for the response body) fall relative to B's steps
+//! (`mark_update_start`, install, `mark_update_done`, `process_once.before_notify` = the point just
+//! before `notify()`).
+//!
+//! Oracle (property statement; manual, api-endpoints: "the request will not return until a new data
+//! set is available"): at quiescence (B finished, A polled as often as it was woken) the request
+//! must have completed if the served (session, serial) differed from the presented one at any
+//! moment after A's arrival (= the handler's look at the served version), i.e. if it differed then
+//! or a change was installed afterwards.
+//! No timeout is involved: "still pending and not woken" is an observed fact.
+
+use std::sync::atomic::{AtomicBool, Ordering};
+use std::sync::{Arc, Mutex};
+
+use proptest::prelude::*;
+use serde::{Deserialize, Serialize};
 
 use crate::core::*;
+use crate::hsched::*;
+use crate::pay::*;
+use crate::sched::{self, BytesChooser, Chooser, Dfs, Event, Job, Opts};
 
-pub const IMPLEMENTED: bool = false;
+pub const KNOWN_LOST: &str = "C17/lost-wakeup/change-between-check-and-subscribe";
 
-pub fn run(_ctx: &Ctx, _rep: &mut Report, _replay: Option<&serde_json::Value>) {
-    eprintln!("C17: check not implemented");
-    std::process::exit(2);
+/// Which version the client presents.
+#[derive(Serialize, Deserialize, Clone, Debug, PartialEq, Eq, Hash)]
+pub enum Presented {
+    /// the version served when the concurrent phase starts
+    Current,
+    /// `k` serials behind that version (wrapping)
+    Behind(u32),
+    /// `k` serials ahead of that version
+    Ahead(u32),
+    /// that serial under a different session id
+    OtherSession,
+    /// no query string
+    NoQuery,
+}
+
+#[derive(Serialize, Deserialize, Clone, Debug)]
+pub struct Case {
+    /// history size
+    pub keep: usize,
+    /// data set ids installed (sequentially) before the request arrives
+    pub pre: Vec<u8>,
+    /// data set ids of B's `process_once` calls
+    pub steps: Vec<u8>,
+    pub presented: Presented,
+    pub head: bool,
+    /// schedule (`sched::BytesChooser`); thread 0 = A (request), thread 1 = B (server loop)
+    pub choices: Vec<u8>,
+}
+
+struct AOut {
+    ready: bool,
+    ready_after_forced_repoll: bool,
+    status: Option<u16>,
+    body: Vec<u8>,
+    polls: usize,
+    wakes: usize,
+}
+
+struct World<'a> {
+    fx: &'a Fixture,
+    configs: std::collections::BTreeMap<usize, Arc<routinator::config::Config>>,
+}
+
+impl World<'_> {
+    fn config(&self, keep: usize) -> Arc<routinator::config::Config> {
+        self.configs.get(&keep).cloned().unwrap_or_else(|| Arc::new(self.fx.config(keep)))
+    }
+}
+
+/// Facts about one execution, derived from the trace and the model only.
+struct Facts {
+    /// presented version != version served on arrival
+    differs_on_arrival: bool,
+    /// changes installed after A's arrival
+    changes_after_arrival: usize,
+    /// a change was installed after A's version check and its notification was sent before A subscribed
+    change_and_notify_in_window: bool,
+    /// a change was installed after A's version check and before A subscribed
+    change_in_window: bool,
+    /// a notification for a change installed after the check was sent after A subscribed
+    notify_after_subscribe: bool,
+    /// A took the waiting branch (check saw the presented version)
+    waited: bool,
+}
+
+fn execute(world: &World<'_>, case: &Case, chooser: &mut dyn Chooser, info: &mut CaseInfo) -> Verdict {
+    if case.steps.is_empty() || case.steps.len() > 4 || case.pre.len() > 4 {
+        return Verdict::Dropped("case_out_of_domain".into());
+    }
+    let inst = Inst::new(world.config(case.keep), world.fx.engine.clone());
+    let all: Vec<MSet> = case.pre.iter().chain(case.steps.iter()).map(|i| set_of(*i)).collect();
+    let model = Model::new(&all);
+    {
+        let mut n = inst.notify.clone();
+        for (i, id) in case.pre.iter().enumerate() {
+            if !inst.process_once(&mut n, &set_of(*id), i == 0) {
+                return Verdict::Dropped("pre_run_failed".into());
+            }
+        }
+    }
+    let session = inst.session();
+    let start_serial = if case.pre.is_empty() { 0 } else { model.serial(case.pre.len()) };
+    let presented: Option<(u64, u32)> = match case.presented {
+        Presented::Current => Some((session, start_serial)),
+        Presented::Behind(k) => Some((session, start_serial.wrapping_sub(k))),
+        Presented::Ahead(k) => Some((session, start_serial.wrapping_add(k))),
+        Presented::OtherSession => Some((session ^ 1, start_serial)),
+        Presented::NoQuery => None,
+    };
+    let uri = match presented {
+        Some((s, n)) => format!("/json-delta/notify?session={}&serial={}", s, n),
+        None => "/json-delta/notify".to_string(),
+    };
+    let b_done = Arc::new(AtomicBool::new(false));
+    let wake_state = Arc::new(WakeState::default());
+    let out: Arc<Mutex<Option<AOut>>> = Default::default();
+
+    let a_job: Job = {
+        let (inst, b_done, out, head, wake_state) = (inst.clone(), b_done.clone(), out.clone(), case.head, wake_state.clone());
+        Box::new(move || {
+            let handler = inst.handler.clone();
+            let headers: Vec<(String, String)> = Vec::new();
+            sched::note("A arrive");
+            let mut task = Task::with_state(handler.request(if head { "HEAD" } else { "GET" }, &uri, &headers), wake_state);
+            let mut done = task.poll();
+            sched::note(format!("A polled ready={}", done));
+            while !done {
+                if task.woken() {
+                    sched::note("A woken");
+                    done = task.poll();
+                    sched::note(format!("A polled ready={}", done));
+                } else if b_done.load(Ordering::SeqCst) {
+                    break;
+                } else {
+                    sched::yield_now(IDLE);
+                }
+            }
+            let ready = done;
+            // Classification only: would a poll without a wake-up have completed the request?
+            let forced = if !done { task.poll() } else { true };
+            let (polls, wakes) = (task.polls, task.wakes());
+            let (status, body) = match task.result.take() {
+                Some(r) => (Some(r.status), r.body()),
+                None => (None, Vec::new()),
+            };
+            *out.lock().unwrap() = Some(AOut { ready, ready_after_forced_repoll: forced, status, body, polls, wakes });
+        })
+    };
+    let b_job: Job = {
+        let inner = updater_job(&inst, case.steps.iter().map(|i| set_of(*i)).collect(), case.pre.len());
+        let b_done = b_done.clone();
+        Box::new(move || {
+            inner();
+            b_done.store(true, Ordering::SeqCst);
+        })
+    };
+    let mut filter = IdleFilter { inner: chooser, idle_tid: 0, state: wake_state.clone(), release: b_done.clone() };
+    let mut watch = Watch::new(&inst.history);
+    let run = sched::run_opts(vec![a_job, b_job], &mut filter, &mut |t| {
+        watch.on_step(t);
+        Ok(())
+    }, &Opts { stutter_labels: Some(STUTTER_LABELS), ..Default::default() });
+    if let Some((tid, msg)) = run.panics.first() {
+        return Verdict::fail("C17/thread-panic", format!("thread {} panicked: {}", tid, msg));
+    }
+    if run.deadlock {
+        return Verdict::fail("C17/deadlock", format!("all threads blocked; trace {}", render_trace(&run.trace)));
+    }
+    if run.diverged {
+        return Verdict::Dropped("schedule_step_bound".into());
+    }
+    let Some(a) = out.lock().unwrap().take() else { return Verdict::Dropped("no_result_from_A".into()) };
+    let trace = &run.trace;
+    let mut ups = updater_positions(trace, 1);
+    if ups.len() != case.steps.len() || !watch.apply(&mut ups) || ups.iter().any(|u| !u.ok || u.install.is_none() || u.mark_done.is_none() || u.notify.is_none()) {
+        return Verdict::Dropped("updater_trace_incomplete".into());
+    }
+
+    // ---- facts from trace + model ----
+    let arrive = trace.iter().position(|e| matches!(e, Event::Note { tid: 0, text } if text == "A arrive")).unwrap_or(0);
+    let first_polled = trace.iter().position(|e| matches!(e, Event::Note { tid: 0, text } if text.starts_with("A polled"))).unwrap_or(trace.len());
+    let check = steps_between(trace, 0, "history.read", arrive, first_polled).first().copied();
+    let subscribe = steps_between(trace, 0, "notify.after_need_wait", arrive, first_polled).first().copied();
+    let npre = case.pre.len();
+    // (install index, notify index) of B's calls that change the version
+    let changes: Vec<(usize, usize)> = ups.iter().enumerate().filter(|(i, _)| npre + i > 0 && model.changed(npre + i)).map(|(_, u)| (u.install.unwrap(), u.notify.unwrap())).collect();
+    let installs: Vec<usize> = ups.iter().map(|u| u.install.unwrap()).collect();
+    // The request "arrives" when the handler looks at the served version (its version check):
+    // everything before that is indistinguishable from a later arrival.
+    let arrival = check.unwrap_or(arrive);
+    let n_arr = npre + count_before(&installs, arrival);
+    let serial_arr = if n_arr == 0 { 0 } else { model.serial(n_arr) };
+    let differs_on_arrival = presented.map(|p| p != (session, serial_arr)).unwrap_or(true);
+    let changes_after_arrival = changes.iter().filter(|(i, _)| *i > arrival).count();
+    // The branch A took: its check saw the version after the installs before `check`.
+    let waited = match (presented, check) {
+        (Some(p), Some(c)) => {
+            let n = npre + count_before(&installs, c);
+            p == (session, if n == 0 { 0 } else { model.serial(n) })
+        }
+        _ => false,
+    };
+    let (mut change_in_window, mut change_and_notify_in_window, mut notify_after_subscribe) = (false, false, false);
+    if let (Some(c), Some(s)) = (check, subscribe) {
+        for (i, n) in &changes {
+            if *i > c && *i < s {
+                change_in_window = true;
+            }
+            if *i > c && *n < s {
+                change_and_notify_in_window = true;
+            }
+            if *i > c && *n > s {
+                notify_after_subscribe = true;
+            }
+        }
+    }
+    // The very first install (serial stays 0) also notifies; it is not a version change.
+    let f = Facts { differs_on_arrival, changes_after_arrival, change_and_notify_in_window, change_in_window, notify_after_subscribe, waited };
+
+    // ---- coverage bookkeeping ----
+    info.nt(f.change_in_window);
+    info.class(format!("presented={}", match case.presented {
+        Presented::Current => "current",
+        Presented::Behind(_) => "behind",
+        Presented::Ahead(_) => "ahead",
+        Presented::OtherSession => "other-session",
+        Presented::NoQuery => "none",
+    }));
+    info.class(format!("B-calls={} changes={}", case.steps.len(), changes.len()));
+    info.class(if a.ready { "A=ready" } else { "A=pending" });
+    if f.waited {
+        info.class("A-took-waiting-branch");
+    }
+    if f.change_in_window {
+        info.class("nt:change-between-check-and-subscribe");
+    }
+    if f.change_and_notify_in_window {
+        info.class("change+notify-between-check-and-subscribe");
+    }
+    if f.waited && f.notify_after_subscribe {
+        info.class("woken-by-notify-after-subscribe");
+    }
+    if case.pre.is_empty() {
+        info.class("arrives-before-first-validation");
+    }
+
+    // ---- known shape: excluded from the bulk search only while listed ----
+    let known_shape = f.waited && f.change_and_notify_in_window && !f.notify_after_subscribe;
+    if known_shape && is_listed_known("C17", KNOWN_LOST) && !DIRECTED.with(|d| d.get()) {
+        info.class("excluded:known-lost-wakeup-shape");
+        EXCLUDED.with(|e| e.set(e.get() + 1));
+        return Verdict::Pass;
+    }
+
+    // ---- oracle ----
+    let must_be_ready = f.differs_on_arrival || f.changes_after_arrival > 0;
+    if must_be_ready && !a.ready {
+        let key = if presented.is_none() {
+            "C17/pending-without-version".to_string()
+        } else if !f.waited {
+            "C17/pending-although-version-differed-at-check".to_string()
+        } else if known_shape {
+            KNOWN_LOST.to_string()
+        } else if f.notify_after_subscribe {
+            "C17/pending-although-notified-after-subscribe".to_string()
+        } else if a.ready_after_forced_repoll {
+            "C17/not-woken-but-ready-on-forced-repoll".to_string()
+        } else {
+            "C17/pending-without-notification-for-change".to_string()
+        };
+        let final_serial = model.serial(all.len());
+        return Verdict::fail(
+            key,
+            format!(
+                "request {} {} still pending at quiescence (B finished, A polled {} times, woken {} times, forced re-poll ready={}): presented {:?}, served on arrival ({}, {}), {} change(s) installed after arrival, finally served serial {}; trace: {}",
+                if case.head { "HEAD" } else { "GET" },
+                match presented {
+                    Some((s, n)) => format!("/json-delta/notify?session={}&serial={}", s, n),
+                    None => "/json-delta/notify".into(),
+                },
+                a.polls,
+                a.wakes,
+                a.ready_after_forced_repoll,
+                presented,
+                session,
+                serial_arr,
+                f.changes_after_arrival,
+                final_serial,
+                render_trace(trace)
+            ),
+        );
+    }
+    if a.ready {
+        // A completed response must be 200 and (GET) name a version that was served after arrival.
+        if a.status != Some(200) {
+            return Verdict::fail("C17/notify-status", format!("notify request answered with status {:?}", a.status));
+        }
+        if !case.head {
+            let v: Result<serde_json::Value, _> = serde_json::from_slice(&a.body);
+            let (bs, bn) = match v.as_ref().ok().map(|v| (v.get("session").and_then(|x| x.as_u64()), v.get("serial").and_then(|x| x.as_u64()))) {
+                Some((Some(s), Some(n))) => (s, n as u32),
+                _ => return Verdict::fail("C17/notify-body-malformed", format!("body {:?}", String::from_utf8_lossy(&a.body))),
+            };
+            let final_serial = model.serial(all.len());
+            if bs != session || bn < serial_arr || bn > final_serial {
+                return Verdict::fail("C17/notify-body-version", format!("response names ({}, {}), served versions after arrival were ({}, {}..={})", bs, bn, session, serial_arr, final_serial));
+            }
+            // A request that waited must report a version different from the presented one
+            // unless it was released by the notification of the very first validation.
+            if f.waited && Some((bs, bn)) == presented && !(case.pre.is_empty()) {
+                info.class("released-with-presented-version");
+            }
+        }
+        if !must_be_ready {
+            info.class("returned-although-version-current");
+        }
+    }
+    Verdict::Pass
+}
+
+thread_local! {
+    static DIRECTED: std::cell::Cell<bool> = const { std::cell::Cell::new(false) };
+    static EXCLUDED: std::cell::Cell<u64> = const { std::cell::Cell::new(0) };
+}
+
+fn flush_excluded(rep: &mut Report) {
+    let n = EXCLUDED.with(|e| e.replace(0));
+    if n > 0 {
+        *rep.excluded_known.entry(KNOWN_LOST.to_string()).or_default() += n;
+    }
+}
+
+/// Programs whose schedule trees are enumerated completely.
+fn dfs_programs(tier: Tier) -> Vec<Case> {
+    let c = |pre: &[u8], steps: &[u8], presented: Presented, head: bool| Case { keep: 10, pre: pre.to_vec(), steps: steps.to_vec(), presented, head, choices: vec![] };
+    let mut v = vec![
+        // one change while the client holds the current version
+        c(&[1], &[2], Presented::Current, false),
+        // unchanged run, then a change
+        c(&[1], &[1, 2], Presented::Current, false),
+        // client one behind / ahead / other session / no query
+        c(&[1, 2], &[3], Presented::Behind(1), false),
+        c(&[1], &[2], Presented::Ahead(1), false),
+        c(&[1], &[2], Presented::OtherSession, false),
+        c(&[1], &[2], Presented::NoQuery, false),
+        // request arrives before the first validation finished
+        c(&[], &[1, 2], Presented::Current, false),
+        // HEAD
+        c(&[1], &[2], Presented::Current, true),
+        // only unchanged runs: nothing to wait for ever happens
+        c(&[1], &[1], Presented::Current, false),
+    ];
+    if tier == Tier::Thorough {
+        v.push(c(&[1], &[2, 3], Presented::Current, false));
+        v.push(c(&[1], &[2, 2, 3], Presented::Current, false));
+        v.push(c(&[1, 2], &[2, 1, 1], Presented::Current, true));
+        v.push(c(&[], &[1, 1, 2], Presented::Current, false));
+    }
+    v
+}
+
+fn run_dfs(ctx: &Ctx, rep: &mut Report, world: &World<'_>) {
+    let bound = usize::MAX;
+    let cap = ctx.tier.pick(6_000usize, 200_000);
+    let mut per_program = Vec::new();
+    let mut all_exhausted = true;
+    let mut total = 0usize;
+    for prog in dfs_programs(ctx.tier) {
+        let mut dfs = Dfs::new();
+        let mut n = 0usize;
+        let mut exhausted = false;
+        loop {
+            let mut info = CaseInfo::default();
+            let mut bounded = Bounded::new(&mut dfs, bound);
+            let verdict = execute(world, &prog, &mut bounded, &mut info);
+            n += 1;
+            let case = Case { choices: bounded.taken.clone(), ..prog.clone() };
+            rep.record(ctx, &Tagged { sub: "sched".to_string(), case }, &info, &verdict);
+            if rep.violated() {
+                flush_excluded(rep);
+                return;
+            }
+            if !dfs.advance() {
+                exhausted = true;
+                break;
+            }
+            if n >= cap {
+                break;
+            }
+        }
+        total += n;
+        all_exhausted &= exhausted;
+        per_program.push(serde_json::json!({"pre": prog.pre, "steps": prog.steps, "presented": prog.presented, "head": prog.head, "schedules": n, "exhausted": exhausted}));
+    }
+    flush_excluded(rep);
+    rep.extra.insert("dfs_schedules".into(), serde_json::json!(total));
+    rep.extra.insert("dfs_programs".into(), serde_json::json!(per_program));
+    rep.exhaustive = Some(all_exhausted);
+}
+
+fn prop_sched(world: &World<'_>, case: &Case, info: &mut CaseInfo) -> Verdict {
+    let mut ch = BytesChooser::new(&case.choices);
+    execute(world, case, &mut ch, info)
+}
+
+fn case_strategy() -> impl Strategy<Value = Case> {
+    (
+        prop::sample::select(vec![1usize, 2, 10]),
+        prop::collection::vec(0u8..4, 0..=3),
+        prop::collection::vec(0u8..4, 1..=3),
+        prop_oneof![
+            6 => Just(Presented::Current),
+            1 => (1u32..3).prop_map(Presented::Behind),
+            1 => (1u32..3).prop_map(Presented::Ahead),
+            1 => Just(Presented::OtherSession),
+            1 => Just(Presented::NoQuery),
+        ],
+        prop::bool::weighted(0.2),
+        prop::collection::vec(0u8..2, 0..40),
+    )
+        .prop_map(|(keep, pre, steps, presented, head, choices)| Case { keep, pre, steps, presented, head, choices })
+}
+
+/// The directed representative of the known lost-wakeup shape: A checks the version and stops just
+/// before `subscribe`; B installs a change and notifies; A subscribes and waits for ever.
+fn directed_known() -> Case {
+    let mut choices = vec![0u8, 0];
+    choices.extend(std::iter::repeat(1u8).take(40));
+    Case { keep: 10, pre: vec![1], steps: vec![2], presented: Presented::Current, head: false, choices }
+}
+
+pub fn run(ctx: &Ctx, rep: &mut Report, replay: Option<&serde_json::Value>) {
+    rep.rule("thread A polls GET/HEAD /json-delta/notify[?session&serial] through the real dispatcher by hand (first poll, then only after its waker fired); thread B performs 1-3 Server::process_once calls over an engine without TALs (data sets carried by local exceptions, changing or repeating), 0-3 calls were made sequentially before; presented version: current / 1-2 behind / 1-2 ahead / other session / none; the schedule interleaves A's steps (version check, notify.after_need_wait = just before subscribe, body read) with B's (mark_update_start, update read, install, mark_update_done, process_once.before_notify = just before notify): (dfs) every schedule of 9 programs (13 thorough) enumerated, (sched) generated programs with generated choice strings; oracle at quiescence (B done, A re-polled once per wake-up): the request completed if the presented version differed from the served one on arrival or a change was installed after arrival; a completed GET names (session, serial) served after arrival; non-trivial = a version change is installed between A's version check and A's subscribe; distinct by program+schedule");
+    rep.assume("one controlled thread runs at a time (sequentially consistent interleavings at the granularity of the yield points); the executor model is: a pending task is polled again only after its waker was invoked");
+    rep.assume("the engine has no TALs, so a validation run takes about a millisecond and the served data set is exactly the local exceptions of the call");
+    let fx = Fixture::new(ctx);
+    let mut world = World { fx: &fx, configs: Default::default() };
+    for k in [1usize, 2, 10] {
+        world.configs.insert(k, Arc::new(fx.config(k)));
+    }
+    if let Some(v) = replay {
+        let t: Tagged<Case> = serde_json::from_value(v.clone()).expect("replay");
+        DIRECTED.with(|d| d.set(true));
+        run_case(ctx, rep, "sched", &t.case, |c, i| prop_sched(&world, c, i));
+        return;
+    }
+    // one directed representative of the known shape (prints KNOWN-FINDING while it reproduces)
+    // RV_SKIP_DIRECTED=1 (testing aid): let the bulk search find the shape on its own
+    if std::env::var_os("RV_SKIP_DIRECTED").is_none() {
+        DIRECTED.with(|d| d.set(true));
+        run_case(ctx, rep, "sched", &directed_known(), |c, i| prop_sched(&world, c, i));
+        DIRECTED.with(|d| d.set(false));
+    }
+    if rep.violated() {
+        return;
+    }
+    run_dfs(ctx, rep, &world);
+    if rep.violated() {
+        return;
+    }
+    run_prop(ctx, rep, "sched", ctx.tier.pick(15_000, 120_000), case_strategy(), |c, i| prop_sched(&world, c, i));
+    flush_excluded(rep);
 }
